@@ -113,6 +113,12 @@ def check(prog, run):
                 detail = sym.show(e)[:160]
                 dep_taken = any(isinstance(x, tuple) and x and x[0] == "call" and x[1] == "std::mem::take" for x in sym.walk(e))
                 dep_dts = "dts" in detail
+                # a local copy of an element of the taken vector (`let first = samples[0].dts`)
+                for x in sym.walk(e):
+                    if isinstance(x, tuple) and x and x[0] == "load" and str(x[1]).startswith("_") and str(x[1]).split(".")[0][1:].isdigit():
+                        le = sym.expr_local(fb, int(str(x[1]).split(".")[0][1:]))
+                        if le[0] == "call" and le[1] == "std::mem::take":
+                            dep_taken = True
                 # a state field that was assigned from the taken vector *before* the call also counts
                 if not dep_taken:
                     for s_ in srcs:
